@@ -1,0 +1,21 @@
+//go:build verif
+
+package getoptions
+
+import "io"
+
+// VerifSetExitFn swaps the function called on the completion exit path and
+// returns a function that restores the previous one.
+func VerifSetExitFn(fn func(int)) func() {
+	old := exitFn
+	exitFn = fn
+	return func() { exitFn = old }
+}
+
+// VerifSetCompletionWriter swaps the writer that receives the completion list
+// and returns a function that restores the previous one.
+func VerifSetCompletionWriter(w io.Writer) func() {
+	old := completionWriter
+	completionWriter = w
+	return func() { completionWriter = old }
+}
